@@ -228,7 +228,7 @@ impl Property for C03 {
     }
     fn budget(tier: Tier) -> u64 {
         match tier {
-            Tier::Quick => 6_000,
+            Tier::Quick => 5_000,
             Tier::Thorough => 150_000,
         }
     }
